@@ -319,6 +319,19 @@ Definition pair_model (c : list pdecl * (list (str * value) * list (str * value)
 def quote_class(violation, known):
     """K1: a collision of two registry texts that needs a quote character inside a string or mapping key"""
     case = violation.get('case', {})
+    if violation.get('suite') == 'chain_pairs' and 'keeps the key' in violation.get('oracle', ''):
+        # the same collision met through a whole chain: the edited value and the value it replaced have one text by the
+        # renderer of the release, and a quote character inside a string is what makes them so
+        from .. import oracle_frozen as fz
+        try:
+            old = case['case']
+            for step in case['edit']['where']:
+                old = old[step]
+            new = case['edit']['value']
+            return (fz.value_text(old) == fz.value_text(new) and json.dumps(old, sort_keys=True) != json.dumps(new, sort_keys=True)
+                    and any("'" in s for v in (old, new) for s in strings_of(v)))
+        except (KeyError, IndexError, TypeError, NotImplementedError):
+            return False
     if violation.get('suite') != 'registry_pairs' or 'one text' not in violation.get('oracle', ''):
         return False
     return any("'" in s for tag in ('c1', 'c2') for v in case.get(tag, {}).values() for s in strings_of(v))
